@@ -237,6 +237,13 @@ int main(int argc, char **argv)
 		break;
 	}
 	case OP_UNPACK:
+		/*
+		 * The node we were asked to unpack becomes the unpack root,
+		 * the paths of everything below are relative to it. If it is
+		 * a sub directory of the image it still carries its own name.
+		 */
+		n->name[0] = '\0';
+
 		if (tree_sort(n))
 			goto out;
 
